@@ -354,7 +354,7 @@ class C12(Check):
             add("addr_fmt main std %s %s" % (k.hex(), valid[0].hex()), "format-unchecked-key")
 
         # mutation base set: one blob per (network,type) (thorough: three)
-        base = blobs[::npairs] if not thorough else blobs[::npairs] + blobs[1::npairs] + blobs[2::npairs]
+        base = (blobs[::npairs] + blobs[1::npairs]) if not thorough else (blobs[::npairs] + blobs[1::npairs] + blobs[2::npairs] + blobs[5::npairs])
         for bi, b in enumerate(base):
             for i in range(len(b)):
                 for f in (lambda x: (x + 1) & 0xff, lambda x: x ^ 0x80, lambda x: 0x00, lambda x: 0xff):
@@ -429,12 +429,12 @@ class C12(Check):
                 add("b58_dec " + hx(ch * ln), "illegal-length-or-overflow")
         add("b58_dec " + hx(b"jpXCZedGfVQ"), "block-boundary")      # 2^64-1
         add("b58_dec " + hx(b"jpXCZedGfVR"), "block-boundary")      # 2^64
-        for _ in range(3000 if not thorough else 150000):
+        for _ in range(5000 if not thorough else 150000):
             n = rng.choice([rng.randint(0, 100), rng.randint(0, 17), 8, 16, 69, 77])
             b = bytes(rng.choice([rng.getrandbits(8), 0, 0xff]) for _ in range(n))
             add("b58_enc " + hx(b), "random-bytes")
             add("b58_dec " + hx(b58_enc(b)), "random-text-canonical")
-        for _ in range(6000 if not thorough else 300000):
+        for _ in range(9000 if not thorough else 300000):
             n = rng.choice([rng.randint(0, 40), 11, 22, rng.choice([2, 3, 5, 6, 7, 9, 10, 13, 14, 16, 17, 18, 20, 21])])
             top = rng.choice([58, 58, 30, 8, 2])
             t = bytes(ALPHA[rng.randrange(top)] if rng.random() < 0.97 else rng.getrandbits(7) for _ in range(n))
@@ -448,14 +448,16 @@ class C12(Check):
             h = b.hex().encode()
             for m in (h.upper(), b"0x" + h, b"0x" + h.upper(), b"0X" + h, b"0x0x" + h, h[:-1], b"0x" + h[:-1], h + b"0",
                       h[:10] + b"g" + h[11:], h[:10] + b"G" + h[11:], b" " + h, h + b" ", h[:20].upper() + h[20:],
-                      b"0x", b"", h[:40] + b"\xc3\xa9" + h[42:], h + h[-8:], b"x" + h, b"00" + h):
+                      b"0x", b"", h[:40] + b"\xc3\xa9" + h[42:], h + h[-8:], b"x" + h, b"00" + h,
+                      h.replace(b"a", b"A").replace(b"c", b"C").replace(b"e", b"E"), h[:60] + b"\xff" + h[61:]):
                 add("addr_from_hex " + hx(m), "hex-form")
         # ---- consensus form
         for b in base[:3]:
             n = len(b)
             for m in (leb128(n) + b + b"\x00", leb128(n + 1) + b, leb128(n - 1) + b, bytes([0x80 | n, 0x00]) + b,
                       b"\xff\xff\xff\xff\x0f" + b, b"\x81\x80\x80\x10" + b, b"\xff" * 9 + b"\x01" + b, b"\xff" * 10 + b,
-                      leb128(n), leb128(n) + b[:-1], b, b"\x00", b"", b"\x00" + b, leb128(n) + b + b):
+                      leb128(n), leb128(n) + b[:-1], b, b"\x00", b"", b"\x00" + b, leb128(n) + b + b,
+                      b"\x80\x80\x80\x10" + b, b"\x80\x80\x80\x10", leb128(2 ** 64 - 1) + b, leb128(2 ** 64) + b):
                 add("addr_dec " + hx(m), "consensus-form")
         return cs
 
